@@ -200,6 +200,7 @@ func main() {
 	args := hx.ParseArgs()
 	meta := hx.NewMeta("h_msg", args.Seed, args.Tier)
 	devnull, _ := os.OpenFile(os.DevNull, os.O_WRONLY, 0)
+	hx.KeepStderr = os.Stderr
 	os.Stderr = devnull
 	rng := hx.NewRng(args.Seed)
 	meta.Rule = "2-3 goroutines calling Channel.Write concurrently under the hook scheduler; message types []byte, [][]byte, *bytes.Buffer, strings.Reader, bytes.Reader (sizes 2..5000 across the 1024-byte streaming chunk, and 65536/65537/140000 around the largest pooled size class), io.Reader below / above the chunk, string through delimiter+text codecs, []byte through a length-field codec; sync and async channels; random and sticky schedules; non-trivial = the schedule switched goroutines while a message was being written; distinct = distinct (scenario, schedule)"
